@@ -255,10 +255,42 @@ def _model_values(space, bound_args):
     return out
 
 
+def _patch_lazy_format():
+    """format(n) / "{}".format(n) / f"{n}" of a symbolic int: CrossHair realises the number; return its lazy symbolic
+    decimal string instead (str(n) is already modelled that way).  Opt-in per harness: useful when the code under
+    analysis only formats numbers into messages that nobody inspects (warnings)."""
+    import crosshair.core as C
+    import crosshair.libimpl.builtinslib as B
+    from crosshair.tracers import NoTracing
+
+    if getattr(C, "_verif_lazyfmt", False):
+        return
+    C._verif_lazyfmt = True
+    reg = C._PATCH_REGISTRATIONS
+    orig = reg.get(format)
+
+    def _format(value, spec=""):
+        with NoTracing():
+            symint = isinstance(value, B.SymbolicInt) and isinstance(spec, str) and spec in ("", "d")
+            m = getattr(type(value), "__module__", "")
+            plain_obj = isinstance(m, str) and not m.startswith("crosshair") and not isinstance(value, (int, float, str, bytes)) \
+                and isinstance(spec, str) and spec == ""
+        if symint:
+            return value.__str__()
+        if plain_obj:
+            # ordinary object: CrossHair's patch would deep-realise it; its own __str__ runs under tracing instead
+            return str(value)
+        return orig(value, spec) if orig else format(value, spec)
+
+    reg[format] = _format
+
+
 def explore(fn, budget_s: float, per_path_timeout: float = 30.0, seed: int = 0,
-            max_witnesses: int = 6, reals_only: bool = True, stop_on_refute: bool = True):
+            max_witnesses: int = 6, reals_only: bool = True, stop_on_refute: bool = True, lazy_format: bool = False):
     """Symbolically execute harness ``fn`` over all its paths.  Returns a dict."""
     _install_crosshair(reals_only)
+    if lazy_format:
+        _patch_lazy_format()
     from crosshair.condition_parser import condition_parser
     from crosshair.copyext import CopyMode, deepcopyext
     from crosshair.core import (COMPOSITE_TRACER, ExceptionFilter, NoTracing, Patched,
